@@ -329,6 +329,41 @@ def job_weights(ctx: Ctx, scheme, shape):
         ctx.holds(f"|sum(w)/V - 1| <= sum_i 1/n_i = {bound}", (ratio - 1 <= K(bound)) & (1 - ratio <= K(bound)), p.pc, replay=replay, key=key + ":sum")
 
 
+def weights_history_oracle():
+    """float code, fresh interpreter: grids of the same shape and scheme built one after the other with different axes (and again with the first axes)
+    each carry the weights of a grid built alone in a fresh process state -- compared through the scale-free ratio w / V."""
+    import warnings
+    warnings.simplefilter("ignore")
+    import grid.cubic as cu
+    bad = {}
+    for scheme in ("Rectangle", "Trapezoid", "Fourier1", "Alternative"):
+        for shape, axes_list in (((4, 5, 6), [np.eye(3), np.diag([0.1, 0.2, 0.05]), np.array([[0.5, 0.1, 0.0], [0.0, 0.4, 0.1], [0.1, 0.0, 0.3]])]), ((5, 4), [np.eye(2), np.diag([0.3, 0.7])])):
+            ref = None
+            for k, ax in enumerate(axes_list + axes_list[:1]):
+                g = cu.UniformGrid(np.zeros(len(shape)), ax, np.array(shape), weight=scheme)
+                vol = abs(np.linalg.det(ax * np.array(shape)[:, None]))
+                ratio = g.weights / vol
+                if ref is None:
+                    ref = ratio
+                elif not np.allclose(ratio, ref, rtol=1e-10, atol=1e-14):
+                    bad[f"{scheme} {shape} grid #{k}"] = dict(sum_w=float(g.weights.sum()), volume=float(vol))
+    return bad
+
+
+def job_weights_history(ctx: Ctx):
+    """history: the second (third, ...) grid of a given shape and weight scheme in one process.  Run in a fresh interpreter (module-level state must be pristine)."""
+    import subprocess, json
+    cu, bg = _mods()
+    ctx.encoded(cu.UniformGrid._choose_weight_scheme)
+    out = subprocess.run([sys.executable, "-W", "ignore", "-c", "import json; from harness import C13; print('ORACLE' + json.dumps(C13.weights_history_oracle()))"],
+                         capture_output=True, text=True, env=dict(os.environ, PYTHONPATH=f"{harness.VERIF}:{harness.REPO_SRC}"), cwd=harness.VERIF)
+    line = [l for l in out.stdout.splitlines() if l.startswith("ORACLE")]
+    bad = json.loads(line[0][6:]) if line else {"oracle process failed": out.stderr[-300:]}
+    (ctx.ok if not bad else ctx.fail)("float code: weights of consecutively built grids of one shape/scheme with different axes scale with their own volume (4 schemes, 3-D and 2-D)", detail=str(bad)[:300],
+                                      key="weights:history", how="ground enumeration (not a solver obligation)", replay=(lambda m: (True, bad)), **({} if not bad else dict(model={})))
+    ctx.twins_sat += 1
+
+
 # ----------------------------------------------------------------------------- (d) from_molecule(rotate=False)
 def job_from_molecule(ctx: Ctx, natom, equal_charges=False):
     cu, bg = _mods()
@@ -544,7 +579,7 @@ def job_ground_io_interp(ctx: Ctx):
 
 
 def jobs(tier):
-    js = [Job("index/3d", job_index, 3), Job("index/2d", job_index, 2), Job("ground/io+interpolation", job_ground_io_interp)]
+    js = [Job("index/3d", job_index, 3), Job("index/2d", job_index, 2), Job("ground/io+interpolation", job_ground_io_interp), Job("ground/weights-history", job_weights_history)]
     for shape in ([(2, 3, 4), (3, 2)] if tier == "quick" else [(2, 3, 4), (3, 2), (3, 3, 3), (4, 2, 3), (2, 5), (4, 4, 4)]):
         js.append(Job(f"uniform/{shape}", job_uniform, shape))
     for sizes in ([(2, 3, 2), (2, 3)] if tier == "quick" else [(2, 3, 2), (2, 3), (3, 3, 3), (4, 2, 3), (4, 4)]):
